@@ -217,6 +217,9 @@ def monOp (op : String) (args : List String) : Option String :=
   | "mon_pos_changed" => do
     let (own, _) ← pBit args
     some (if own then "ok" else "viol C08-foreign-change")
+  | "mon_single_lock" => do
+    let (own, _) ← pBit args
+    some (if own then "ok" else "viol C14-locks-for-other")
   | "mon_pos_created" => do
     let (own, ts) ← pBit args
     let (_viaPm, _) ← pBit ts
